@@ -232,6 +232,18 @@ def regress_lattice():
     order = [["s", "B1"], ["s", "I2"], ["s", "B3"], ["s", "B4"]]
     vars_ = [{"n": "B1", "kind": "sym", "cands": [NOVAL, "n"]}, {"n": "I2", "kind": "sym", "cands": [NOVAL, "3"]}, {"n": "B3", "kind": "sym", "cands": [NOVAL, "y", "n"]}, {"n": "B4", "kind": "sym", "cands": [NOVAL, "y"]}]
     out.append({"prog": ents, "ord": order, "vars": vars_, "family": "F-regress", "point": {"found_by": "C08 quick, seed 2", "open": "C08-resolution-order"}})
+    # C02: titles that read like the markers of the sdkconfig format once they are written as '# <title>'
+    ents = [
+        {"k": "comment", "title": "default:", "dep": Y},
+        mk_config("A", "int", prompt=Y, defaults=[{"v": C("1"), "c": Y}]),
+        {"k": "menu", "title": "Deprecated options for backward compatibility", "dep": Y, "visif": Y,
+         "children": [mk_config("B", "int", prompt=Y, defaults=[{"v": C("2"), "c": Y}])]},
+        mk_config("CC", "int", prompt=Y, defaults=[{"v": C("3"), "c": Y}]),
+        {"k": "menu", "title": "End of deprecated options", "dep": Y, "visif": Y, "children": [mk_config("DD", "bool", prompt=Y)]},
+    ]
+    order = [["s", "A"], ["s", "B"], ["s", "CC"], ["s", "DD"]]
+    vars_ = [{"n": "A", "kind": "sym", "cands": [NOVAL, "5"]}, {"n": "B", "kind": "sym", "cands": [NOVAL, "6"]}, {"n": "CC", "kind": "sym", "cands": [NOVAL, "7"]}, {"n": "DD", "kind": "sym", "cands": [NOVAL, "y"]}]
+    out.append({"prog": ents, "ord": order, "vars": vars_, "family": "F-regress", "point": {"found_by": "sub-agent probing the unmodified code (C02-3)"}})
     return out
 
 
